@@ -46,6 +46,8 @@ def gen(rng, tier):
                     n = rng.choice([0, 1, 2, 2, 3, 4, 5, 6, 8, 12])
                     src = gen_list(rng, v, n)
                     c = {"target": t, "src": src, "entry": "meta", "per_item": v, "key": k}
+                    if " = " in src and rng.random() < 0.2:
+                        c["group_all"] = rng.choice([1, 2, 5, 6])       # every value inside invisible groups (macro_rules! fragments)
                     if twin:
                         c["twin"] = twin
                     cases.append(c)
@@ -61,7 +63,7 @@ def run(tier, seed, replay=None):
     R.proof_coverage(vlib.proof_step(prop))
     if replay:
         c = json.load(open(replay))["case"]
-        raw = [{k: c[k] for k in ("target", "src", "entry", "per_item", "key", "twin") if k in c}]
+        raw = [{k: c[k] for k in ("target", "src", "entry", "per_item", "key", "twin", "group_all") if k in c}]
     else:
         raw = gen(R.rng, tier)
 
